@@ -162,9 +162,55 @@ def lex_ab():
     return L
 
 
+def lex_f():
+    """frames: lexicon-level (1.1 style) with an explicit senses list on one frame
+    and subcat references; resource Rf10 carries the same lexicon in 1.0 style"""
+    L = _lex('f', '1', 'en', 'Frames F')
+    L['frames'] = [{'id': 'f-sb1', 'subcategorizationFrame': 'Somebody ----s', 'senses': ['f-w1-1']},
+                   {'id': 'f-sb2', 'subcategorizationFrame': 'Something ----s something'}]
+    L['entries'] = [
+        {'id': 'f-w1', 'meta': None, 'lemma': {'writtenForm': 'give', 'partOfSpeech': 'v'},
+         'senses': [{'id': 'f-w1-1', 'synset': 'f-s1', 'meta': None},
+                    {'id': 'f-w1-2', 'synset': 'f-s2', 'meta': None, 'subcat': ['f-sb2']}]},
+        {'id': 'f-w2', 'meta': None, 'lemma': {'writtenForm': 'take', 'partOfSpeech': 'v'},
+         'senses': [{'id': 'f-w2-1', 'synset': 'f-s1', 'meta': None, 'subcat': ['f-sb1', 'f-sb2']}]},
+        {'id': 'f-w3', 'meta': None, 'lemma': {'writtenForm': 'hold', 'partOfSpeech': 'v'},
+         'senses': [{'id': 'f-w3-1', 'synset': 'f-s2', 'meta': None, 'subcat': ['f-sb2']}]},
+    ]
+    L['synsets'] = [{'id': 'f-s1', 'ili': 'i7', 'partOfSpeech': 'v', 'meta': None},
+                    {'id': 'f-s2', 'ili': '', 'partOfSpeech': 'v', 'meta': None}]
+    return L
+
+
+def to_entry_frames(L):
+    """the same frame-sense links written the WN-LMF 1.0 way (frames on entries;
+    the same frame string on several entries, with and without a senses list)"""
+    frames = {f['id']: f for f in L.pop('frames')}
+    links = {}
+    for f in frames.values():
+        for sid in f.get('senses', []):
+            links.setdefault(sid, []).append(f['subcategorizationFrame'])
+    for e in L['entries']:
+        per = {}
+        for s_ in e['senses']:
+            for sb in s_.pop('subcat', []):
+                links.setdefault(s_['id'], []).append(frames[sb]['subcategorizationFrame'])
+            for fr in links.get(s_['id'], []):
+                per.setdefault(fr, []).append(s_['id'])
+        out = []
+        for fr, sids in per.items():
+            d = {'subcategorizationFrame': fr}
+            if len(sids) != len(e['senses']):
+                d['senses'] = sids
+            out.append(d)
+        if out:
+            e['frames'] = out
+    return L
+
+
 def lexicons() -> dict:
     return {'a:1': lex_a('1'), 'a:2': lex_a('2'), 'x:1': lex_x(), 'y:1': lex_y(),
-            'r:1': lex_r(), 'u:2': lex_u(), 'ab:1.0+b': lex_ab()}
+            'r:1': lex_r(), 'u:2': lex_u(), 'ab:1.0+b': lex_ab(), 'f:1': lex_f()}
 
 
 RESOURCES = {
@@ -175,6 +221,8 @@ RESOURCES = {
     'Rxa': ['x:1', 'a:1'],       # extension listed before its base
     'Raa': ['a:1', 'a:1'],       # duplicate lexicon: fails as a whole
     'Rua': ['u:2', 'a:2'],
+    'Rf11': ['f:1'],             # lexicon-level frames with subcat (WN-LMF 1.1+)
+    'Rf10': ['f:1'],             # the same lexicon with entry-level frames (WN-LMF 1.0 style)
 }
 
 # ILI index files: id -> (status or None for "no status column value", definition or None)
@@ -192,8 +240,12 @@ ILI_FILES = {
 
 def resource(name: str, version='1.3') -> dict:
     lx = lexicons()
-    return {'lmf_version': version,
-            'lexicons': [copy.deepcopy(lx[s]) for s in RESOURCES[name]]}
+    res = {'lmf_version': version,
+           'lexicons': [copy.deepcopy(lx[s]) for s in RESOURCES[name]]}
+    if name == 'Rf10':
+        res['lmf_version'] = '1.0'
+        res['lexicons'] = [to_entry_frames(L) for L in res['lexicons']]
+    return res
 
 
 def ili_text(name: str, crlf=False) -> str:
